@@ -467,6 +467,48 @@ PROPS["C12"] = {"runner": c12_runner, "replay": c12_replay, "level": "proof"}
 GOLDEN_SIZES = [1024, 4096, 5000, 16384]
 
 
+def golden_history(gdir, ps, kind, seed, v, r, extra=None, ntx=3, reopen=True, prefix="gold-cont"):
+    """a history that starts from a copy of the golden file of page size `ps` (kind "" = current header
+    format, "-legacy" = the pinned release's format) and commits further transactions on top of it"""
+    ops = [l.rstrip("\n") for l in open(os.path.join(gdir, "golden-%d.ops" % ps)) if l.strip()]
+    src_ = os.path.join(gdir, "golden-%d%s.db" % (ps, kind))
+    prof = {"pagesize": ps, "numpages": 64, "families": ["tiny", "short", "mid"], "txs": 3, "ops": 30, "p_reopen": 0.4, "p_dbcheck": 1.0}
+    prof.update(extra or {})
+    g = jgen.HistGen(seed * 31 + ps + v + (7 if kind else 0), prof)
+    g.next_tx, g.next_h = 1000, 1000
+    lines = ["hist %s-%d%s-%d" % (prefix, ps, kind, v), "cfg pagesize=%d numpages=64 strict=%d populate=0" % (ps, v % 2), "open"] + ops + ["usefile %s" % src_, "open"]
+    # the shadow must know the golden contents to generate valid operations: replay the creating ops into it
+    sh_ = jgen.Shadow()
+    hmap = {}
+    for o in ops:
+        f = o[1:].split(" ")
+        if f[0] in ("mkb", "getb", "gocb"):
+            parent = sh_ if f[3] == "0" else hmap[f[3]]
+            name = bytes.fromhex(f[4]) if f[4] != "-" else b""
+            parent.items.setdefault(name, jgen.Shadow())
+            hmap[f[2]] = parent.items[name]
+        elif f[0] == "put":
+            k = bytes.fromhex(f[3]) if f[3] != "-" else b""
+            hmap[f[2]].items[k] = b"v"
+        elif f[0] == "del":
+            k = bytes.fromhex(f[3]) if f[3] != "-" else b""
+            hmap[f[2]].items.pop(k, None)
+    g.committed = sh_
+    g.emit("begin 999 r")
+    g.emit("dump 999")
+    g.emit("drop 999")
+    for _ in range(ntx):
+        g.write_tx(r.randrange(5, 40))
+        g.verify()
+        if prof.get("p_dbcheck"):
+            g.emit("dbcheck")
+    if reopen:
+        g.emit("reopen")
+        g.verify()
+    g.emit("close")
+    return lines + g.lines
+
+
 def c15_runner(prop, tier, seed, scratch, spec):
     import hashlib
     import random
@@ -518,37 +560,7 @@ def c15_runner(prop, tier, seed, scratch, spec):
         for kind in ("", "-legacy"):
             src_ = os.path.join(gdir, "golden-%d%s.db" % (ps, kind))
             for v in range(1 if q else 6):
-                g = jgen.HistGen(seed * 31 + ps + v + (7 if kind else 0), {"pagesize": ps, "numpages": 64, "families": ["tiny", "short", "mid"], "txs": 3, "ops": 30, "p_reopen": 0.4, "p_dbcheck": 1.0})
-                g.next_tx, g.next_h = 1000, 1000
-                lines = ["hist gold-cont-%d%s-%d" % (ps, kind, v), "cfg pagesize=%d numpages=64 strict=%d populate=0" % (ps, v % 2), "open"] + ops + ["usefile %s" % src_, "open"]
-                # the shadow must know the golden contents to generate valid operations: replay the creating ops into it
-                sh_ = jgen.Shadow()
-                hmap = {}
-                for o in ops:
-                    f = o[1:].split(" ")
-                    if f[0] in ("mkb", "getb", "gocb"):
-                        parent = sh_ if f[3] == "0" else hmap[f[3]]
-                        name = bytes.fromhex(f[4]) if f[4] != "-" else b""
-                        parent.items.setdefault(name, jgen.Shadow())
-                        hmap[f[2]] = parent.items[name]
-                    elif f[0] == "put":
-                        k = bytes.fromhex(f[3]) if f[3] != "-" else b""
-                        hmap[f[2]].items[k] = b"v"
-                    elif f[0] == "del":
-                        k = bytes.fromhex(f[3]) if f[3] != "-" else b""
-                        hmap[f[2]].items.pop(k, None)
-                g.committed = sh_
-                g.emit("begin 999 r")
-                g.emit("dump 999")
-                g.emit("drop 999")
-                for _ in range(3):
-                    g.write_tx(r.randrange(5, 40))
-                    g.verify()
-                    g.emit("dbcheck")
-                g.emit("reopen")
-                g.verify()
-                g.emit("close")
-                hists.append(lines + g.lines)
+                hists.append(golden_history(gdir, ps, kind, seed, v, r))
     results, stats, by_id = histcheck.run_suites(scratch, [("golden-continue", hists)])
     fails = vlib.failing(results)
     n_cases += len(results)
@@ -671,8 +683,15 @@ def c02_runner(prop, tier, seed, scratch, spec):
     items, expect = [], {}
     imgdir = os.path.join(scratch.dbdir, "cimg")
     os.makedirs(imgdir, exist_ok=True)
-    for idx in range(3 if q else 40):
-        h = crashcheck.crash_history(seed, idx, q)
+    # base histories: fresh files, plus files written earlier (golden files in the current and in the pinned
+    # release's header format) on which further transactions are committed
+    gdir = os.path.join(vlib.ROOT, "golden")
+    bases = [crashcheck.crash_history(seed, idx, q) for idx in range(3 if q else 40)]
+    for kind in ("", "-legacy"):
+        for v in range(1 if q else 4):
+            bases.append(golden_history(gdir, 1024, kind, seed, 100 + v, r, extra={"p_reopen": 0.0, "p_dbcheck": 0.0, "file": False, "p_drop": 0.1,
+                                        "families": ["deep", "tiny", "short"]}, ntx=2 if q else 5, reopen=False, prefix="crash-gold"))
+    for idx, h in enumerate(bases):
         res, trace, logp, cdir = run_under_shim(scratch, h, "c02h%d" % idx)
         bad = vlib.failing(res)
         if bad:
@@ -829,9 +848,14 @@ def c11_runner(prop, tier, seed, scratch, spec):
                "begin 1 w", "mkb 1 1 0 %s" % hx(b"base"), "put 1 1 %s %s" % (hx(b"k"), hx(b"v")), "commit 1",
                "begin 2 w", "getb 2 2 0 %s" % hx(b"base")]
         lim += ["put 2 2 %s %s" % (hx(b"big%d" % j), vtok(bytes([66 + j]) * 3000)) for j in range(4 + idx)]
-        lim += ["limit %d" % (8 * 1024), "commit 2", "limit inf"] + c11_continuation(5000, 5000)
-        variants.append(lim)
-        fault_kinds["extension-limit"] += 1
+        # the limit sits at the current size (nothing can be written), inside the pages the commit needs, or
+        # above them but below the pre-allocation step (only the extension call is refused)
+        for lk in ([8, 64, 1024] if q else [8, 12, 16, 20, 24, 28, 32, 64, 256, 1024, 4096]):
+            v = list(lim)
+            v[0] = "hist c11-limit-%d-%dk" % (idx, lk)
+            v += ["limit %d" % (lk * 1024), "commit 2", "limit inf"] + c11_continuation(5000, 5000)
+            variants.append(v)
+            fault_kinds["extension-limit"] += 1
     n_cases = len(variants)
     crashcheck.ensure_shim()
     env = {"LD_PRELOAD": crashcheck.SHIM, "JSHIM_PATH": "jverif-", "JSHIM_LOG": "/dev/null"}
